@@ -12,7 +12,7 @@ Definition compile_tokres (o : opts) (r : tokres) : Cases.res :=
       match parse_tokens ts with
       | POk nodes => compile_case o nodes
       | PNoModel _ => NoModel
-      | PSyntax _ => NoModel            (* error detection is C15's subject, decided on the real parser *)
+      | PSyntax _ => Err $"CompilationError"      (* the reference parser rejects the token stream *)
       end
   | TIllegal _ _ _ => Err $"SyntaxError"
   | TUnsupported => NoModel
